@@ -175,7 +175,7 @@ func newLoadedDie(weights []int) *loadedDie {
 
 	total := 0
 	for _, w := range weights {
-		assert(w > 0 && w < 100)
+		assert(w > 0)
 		total += w
 	}
 
